@@ -28,6 +28,8 @@ def encodings(ev):
     out.append(('alias-fn', 'type Em = (e: %s) => void;\n' % lit, 'Em', ''))
     out.append(('exported-alias-fn', 'export type Em = (e: %s) => void;\n' % lit, 'Em', ''))
     out.append(('property', '', '{{ ' + '; '.join("'%s': [v: number]" % n for n in ev) + ' }}', ''))
+    out.append(('property-computed-keys', '', '{{ ' + '; '.join("['%s']: [v: number]" % n for n in ev) + ' }}', ''))
+    out.append(('property-mixed-keys', 'interface Em {{ ' + '; '.join(("['%s']: []" if i % 2 == 0 else "'%s': []") % n for i, n in enumerate(ev)) + ' }}\n', 'Em', ''))
     out.append(('property-interface', 'interface Em {{ ' + '; '.join("'%s': []" % n for n in ev) + ' }}\n', 'Em', ''))
     out.append(('literal-union-alias', 'type Ev = %s;\n' % lit, '(e: Ev) => void', ''))
     out.append(('literal-union-alias-chain', 'type Ev0 = %s;\ntype Ev = Ev0;\n' % lit, '{{ (e: Ev): void }}', ''))
